@@ -798,6 +798,11 @@ class Interp:
 
     def compare(self, op, a, b, st, k):
         cx = self.cx
+        h0 = getattr(cx, "eq_hook", None)
+        if h0 is not None and isinstance(op, (ast.Eq, ast.NotEq)):
+            r = h0(self, op, a, b, st, k)
+            if r is not None:
+                return r
         if isinstance(op, ast.Is):
             return k(VBool(identical(cx, a, b, st)), st)
         if isinstance(op, ast.IsNot):
